@@ -6,6 +6,8 @@
  *
  *   begin <id>                       start a scenario (prints "begin <id>")
  *   cal <type> <rows> <cols> <nfreq> <f0> ... <fn-1>
+ *   newcal <type> <rows> <cols> <nfreq> <f...>   free the vnacal_new_t and start another one (same parameters)
+ *   getparamat <name> <n> <f...>     prints "paramat <name> <re im> ..." at the given frequencies
  *   scalar <name> <re> <im>
  *   vector <name> <n> <f...> <re im ...>
  *   unknown <name> <guess-name>
@@ -214,6 +216,22 @@ int wb_printf(const char *fmt, ...)
 
     if (!wb_trace)
 	return 0;
+    /* "p = [" / "  %9.6f%+9.6fj" / "]": the unknown parameter vector, printed by solve_auto
+       before its loop (the starting point) and after every update */
+    if (strncmp(fmt, "p = [", 5) == 0) {
+	printf("wb pstart\n");
+	return 0;
+    }
+    if (strncmp(fmt, "  %9.6f%+9.6fj", 14) == 0) {
+	double re, im;
+
+	va_start(ap, fmt);
+	re = va_arg(ap, double);
+	im = va_arg(ap, double);
+	va_end(ap);
+	printf("wb p %.17g %.17g\n", re, im);
+	return 0;
+    }
     va_start(ap, fmt);
     for (size_t i = 0; i < sizeof(tab) / sizeof(tab[0]); ++i) {
 	if (strncmp(fmt, tab[i].prefix, strlen(tab[i].prefix)) == 0) {
@@ -350,6 +368,38 @@ int main(int argc, char **argv)
 	    }
 	    int rc = vnacal_new_set_frequency_vector(vnp, fv);
 	    report("cal", rc);
+
+	} else if (strcmp(op, "newcal") == 0) {
+	    /* a further vnacal_new_t in the same vnacal_t (parameters are kept) */
+	    vnacal_type_t type = vnacal_name_to_type(next());
+	    if (vnp != NULL)
+		vnacal_new_free(vnp);
+	    vnp = NULL;
+	    free(fv);
+	    have_cal = 0;
+	    rows = nexti();
+	    cols = nexti();
+	    nf = nexti();
+	    fv = calloc(nf, sizeof(double));
+	    for (int i = 0; i < nf; ++i)
+		fv[i] = nextd();
+	    if ((vnp = vnacal_new_alloc(vcp, type, rows, cols, nf)) == NULL) {
+		report("newcal", -1);
+		fail("vnacal_new_alloc");
+	    }
+	    report("newcal", vnacal_new_set_frequency_vector(vnp, fv));
+
+	} else if (strcmp(op, "getparamat") == 0) {
+	    /* getparamat <name> <n> <f...>: values at explicit frequencies */
+	    const char *name = next();
+	    int h = lookup(name);
+	    int n = nexti();
+	    printf("paramat %s", name);
+	    for (int i = 0; i < n; ++i) {
+		double complex v = vnacal_get_parameter_value(vcp, h, nextd());
+		printf(" %.17g %.17g", creal(v), cimag(v));
+	    }
+	    printf(" cb=%d\n", callbacks);
 
 	} else if (strcmp(op, "scalar") == 0) {
 	    const char *name = next();
